@@ -196,7 +196,7 @@ fn main() {
             let pp = PARSE_PEAK.load(Ordering::Relaxed);
             let peak = if pp == usize::MAX { total } else { pp };
             if let Some(s) = stats.as_mut() {
-                let _ = writeln!(s, "{} {}", input.len(), peak);
+                let _ = writeln!(s, "{} {} {}", no, input.len(), peak);
             }
             match r {
                 Ok(Some(s)) => s,
